@@ -10,6 +10,7 @@ import (
 	"path/filepath"
 	"sort"
 	"strings"
+	"sync"
 	"testing"
 	"text/template"
 
@@ -35,6 +36,11 @@ const (
 var (
 	// dryRun indicates whether the generator should run in dry-run mode.
 	dryRun bool
+
+	// generatorMu serialises the generation of struct validators. Validators record the error
+	// variables they have emitted in the process-wide validator.GeneratorMemory, and the analysis
+	// driver runs packages concurrently.
+	generatorMu sync.Mutex
 )
 
 // generator is the main type for the govalid analyzer.
@@ -78,8 +84,6 @@ func (g *generator) run(pass *codegen.Pass) error {
 		(*ast.GenDecl)(nil),
 	}
 
-	tmplList := map[string]TemplateData{}
-
 	inspector.Preorder(nodeFilter, func(n ast.Node) {
 		genDecl, ok := n.(*ast.GenDecl)
 		if !ok || genDecl.Tok != token.TYPE {
@@ -99,30 +103,37 @@ func (g *generator) run(pass *codegen.Pass) error {
 				continue
 			}
 
-			metadata := analyzeMarker(pass, markersInspect, typeMarkers, structType, "", ts.Name.Name)
-			if len(metadata) == 0 {
-				continue
-			}
-
-			tmplData := TemplateData{
-				PackageName:    pass.Pkg.Name(),
-				TypeName:       ts.Name.Name,
-				Metadata:       metadata,
-				ImportPackages: collectImportPackages(metadata),
-			}
-
-			data, ok := tmplList[ts.Name.Name]
-			if ok {
-				data.Metadata = append(data.Metadata, tmplData.Metadata...)
-			}
-
-			if err := writeFile(pass, ts, tmplData); err != nil {
+			if err := generateStruct(pass, markersInspect, typeMarkers, ts, structType); err != nil {
 				panic(fmt.Sprintf("failed to write file for %s: %v", ts.Name.Name, err))
 			}
 		}
 	})
 
 	return nil
+}
+
+// generateStruct analyzes one struct type and writes its validator file. The generated file only
+// depends on the struct itself: the memory of emitted error variables is per file, so whatever other
+// structs and packages have left in it is forgotten first.
+func generateStruct(pass *codegen.Pass, markersInspect markers.Markers, typeMarkers markers.MarkerSet, ts *ast.TypeSpec, structType *ast.StructType) error {
+	generatorMu.Lock()
+	defer generatorMu.Unlock()
+
+	clear(validator.GeneratorMemory)
+
+	metadata := analyzeMarker(pass, markersInspect, typeMarkers, structType, "", ts.Name.Name)
+	if len(metadata) == 0 {
+		return nil
+	}
+
+	tmplData := TemplateData{
+		PackageName:    pass.Pkg.Name(),
+		TypeName:       ts.Name.Name,
+		Metadata:       metadata,
+		ImportPackages: collectImportPackages(metadata),
+	}
+
+	return writeFile(pass, ts, tmplData)
 }
 
 // AnalyzedMetadata holds the metadata for a field in a struct, including its validators and parent variable name.
